@@ -6,6 +6,9 @@
 //! byte k — k swept over a whole short body — missing [DONE], empty body, headers only, endless
 //! tool requests, unrepresentable answers, missing summary artifacts → compile failure).
 //! Oracle: offline on events.jsonl, parsed independently (truth.rs).
+//!
+//! Background jobs that fail / overlap / run on a damaged store are exercised by `c07_jobs.rs` (first
+//! part of every run, a bounded share of the budget).
 
 use crate::c16::toolscript::{
     build_turn, gen_call, gen_run, mark_prompt, mark_turn, CallKind, Emission, Fault, GenOpts, Scripted, Turn,
@@ -22,6 +25,9 @@ use serde_json::{json, Value};
 use std::collections::{BTreeMap, HashMap, HashSet};
 use std::sync::Arc;
 use std::time::{Duration, Instant};
+
+#[path = "c07_jobs.rs"]
+mod jobs;
 
 #[derive(Clone, Debug)]
 enum Action {
@@ -418,7 +424,11 @@ pub fn run(cfg: &Cfg) -> i32 {
          id, deleted summary artifact → compile failure); the first cases sweep the reset offset k over every \
          byte of a short two-turn script (first response / follow-up response); seeded delays at session.emit.* / \
          log.append.* / cont.cache.*; non-trivial = ≥1 accepted run judged to its closing frame; distinct = distinct \
-         multisets of (input class → end reason) × parallelism × job activity",
+         multisets of (input class → end reason) × parallelism × job activity. Background jobs: entry point (2 routes, \
+         2 store calls) × fault (artifact store unusable from the start / between cuts / before the summary rename, \
+         workspace removed / a file, cache files damaged before / while the job runs, message burst, delays, none) × \
+         1–4 sequential or concurrent jobs, then one more job after the fault is undone; distinct = multiset of \
+         (entry @ fault → terminal status)",
     );
     r.assume("the judged log is read after quiescence (all accepted runs ended or watchdog); a run is declared stuck only when the provider has been idle, no tool is executing and the log has not grown for 3 s");
     let s = sched();
@@ -431,13 +441,22 @@ pub fn run(cfg: &Cfg) -> i32 {
             .unwrap_or(Value::Null);
         let seed = doc.get("seed").and_then(|x| x.as_u64()).unwrap_or(cfg.seed);
         let tier = if doc.get("tier").and_then(|x| x.as_str()) == Some("thorough") { Tier::Thorough } else { Tier::Quick };
+        let job_case = doc.get("witness").and_then(|w| w.get("job_case")).and_then(|x| x.as_u64());
         match doc.get("witness").and_then(|w| w.get("case")).and_then(|x| x.as_u64()) {
+            _ if job_case.is_some() => {
+                let idx = job_case.unwrap_or(0);
+                jobs::one_case(&mut r, &s, &rt, jobs::make_case(seed, idx, tier), seed, tier);
+            }
             Some(idx) => one_case(&mut r, &s, &rt, make_case(seed, idx, tier), seed),
             None => r.fatal_inconclusive("replay file has no witness.case"),
         }
         s.reset();
         return r.finish(cfg);
     }
+
+    // background jobs under faults (own case space; directed matrix + seeded random part)
+    let job_cases = jobs::run_all(cfg, &mut r, &s, &rt);
+    r.count("job_fault_cases_run", job_cases);
 
     let max_cases = cfg.tier.pick(2_000u64, 10_000_000u64);
     let mut idx = 0u64;
